@@ -66,7 +66,17 @@ def check_case(ctx, g, model=None, limit=None):
     dead_any = False
     for prune in (True, False):
         o = impl.solve(g, prune, limit=limit, want_nodes=False)
-        judge(ctx, g, prune, o, limit)
+        if o["outcome"] == "Timeout":
+            # a wall-clock bound measures the machine as well as the code (a busy host made a 3000-state chain miss
+            # its 60 s once): before "does not terminate" is claimed the solve is repeated, without the DEBUG
+            # pass, with ten times the bound
+            with impl.forced_debug(False):
+                o = impl.solve(g, prune, limit=max(300.0, 10 * limit), want_nodes=False)
+            ctx.count("slow_case_repeated_with_long_bound")
+            limit_used = max(300.0, 10 * limit)
+        else:
+            limit_used = limit
+        judge(ctx, g, prune, o, limit_used)
         if o["outcome"] == "ok":
             dead_any = dead_any or any(p == 0 for p in o["res"][3])
         elif o["outcome"] == "ValueError:nosolution":
